@@ -101,7 +101,7 @@ func checkValue(c *call, r *core.R) {
 	}
 }
 
-var faultKinds = []string{wsproxy.FIN, wsproxy.RST, wsproxy.BLACKHOLE, wsproxy.CLOSE1000, wsproxy.CLOSE1001}
+var faultKinds = []string{wsproxy.FIN, wsproxy.RST, wsproxy.BLACKHOLE, wsproxy.CLOSE1000, wsproxy.CLOSE1001, wsproxy.CLOSE1012, wsproxy.CLOSE1013}
 
 // planFaults enumerates (kind, dir, ordinal, pos, timing) points.
 func planFaults(tier string, seed int64, prop string) []core.Scenario {
